@@ -149,12 +149,47 @@ class ClassRef:
 
 
 @dataclass(frozen=True)
+class Inst:
+    """An immutable instance of a repo value class (NamedTuple / dataclass): its fields."""
+    cls: object = field(compare=False)     # ClassInfo
+    qual: str = ''
+    fields: tuple = ()                     # ((name, value), ...)
+
+    def get(self, name):
+        for n, v in self.fields:
+            if n == name:
+                return v
+        return None
+
+    def has(self, name):
+        return any(n == name for n, _ in self.fields)
+
+
+@dataclass(frozen=True)
+class EnumV:
+    """A member of a repo Enum class."""
+    cls: object = field(compare=False)     # ClassInfo
+    qual: str = ''
+    name: str = ''
+    value: object = None
+    intlike: bool = False
+
+
+def num_of(v):
+    """IntEnum / IntFlag members take part in arithmetic and comparisons as their value."""
+    if isinstance(v, EnumV) and v.intlike and isinstance(v.value, Sym):
+        return v.value
+    return v
+
+
+@dataclass(frozen=True)
 class Closure:
     """A lambda or nested def with the values of its free variables at definition time."""
     fn: object = field(compare=False)      # synthetic FuncInfo
     label: str = ''                        # 'lambda@<line>' | 'localfunc:<name>'
     captured: tuple = ()                   # ((name, value), ...)
     definer: str = ''                      # qualname of the defining function
+    defaults: tuple = ()                   # ((param, value), ...) evaluated at definition time
 
 
 @dataclass(frozen=True)
@@ -370,6 +405,10 @@ def is_constant_value(v, depth=0):
         return True
     if isinstance(v, Closure):
         return not v.captured or all(is_constant_value(x, depth + 1) for _, x in v.captured)
+    if isinstance(v, Inst):
+        return all(is_constant_value(x, depth + 1) for _, x in v.fields)
+    if isinstance(v, EnumV):
+        return True
     return False
 
 
@@ -407,6 +446,45 @@ def class_attr_is_constant_table(cls, attr, expr):
                     if isinstance(base, ast.Attribute) and base.attr == attr:
                         return False
     return True
+
+
+# ---------------------------------------------------------------------- modelling gaps
+# Places where the interpreter met repo code it does not model (an instance of a repo class, a
+# callable it cannot resolve, ...).  The value it continues with is an over-approximation, so a
+# *mismatch* found downstream is not evidence of a defect: the driver downgrades violations of a
+# run that recorded gaps to "cannot conclude".
+GAP_EVENTS = []
+
+
+def note_gap(kind, what, where):
+    if len(GAP_EVENTS) < 2000:
+        GAP_EVENTS.append((kind, what, where))
+
+
+class suspended_gaps:
+    """Gaps met while analysing a fixture (canary) do not belong to the run's verdict."""
+
+    def __enter__(self):
+        self.saved = list(GAP_EVENTS)
+
+    def __exit__(self, *exc):
+        GAP_EVENTS[:] = self.saved
+        return False
+
+
+def _gap_callee(f):
+    if isinstance(f, Closure):
+        return True
+    if isinstance(f, Opaque):
+        return f.label.startswith(('lambda', 'localfunc', 'item', 'global:', 'comp@', 'havoc:',
+                                   'call:', 'new:', 'elem@', 'default:'))
+    if isinstance(f, Bound):
+        o = f.obj
+        while isinstance(o, Bound):
+            o = o.obj
+        return isinstance(o, Opaque) and o.label.startswith(('new:', 'item', 'comp@', 'lambda',
+                                                             'localfunc', 'elem@'))
+    return False
 
 
 # ====================================================================== interpreter
@@ -459,7 +537,19 @@ class Interp:
         Returns list of Outcome (kind return/raise)."""
         st = st or State()
         outs = []
-        for val, s in self.call_function(fn, list(args or []), dict(kwargs or {}), st, self_obj):
+        if self.unknown_decorators(fn) and not self.stack:
+            me = self_obj
+            if me is None and fn.cls is not None and fn.params and fn.params[0] == 'self':
+                me = ObjRef('self', fn.cls)
+            self.stack.append(ModuleFrame(fn.module, fn.cls))
+            try:
+                results = list(self.call_decorated(fn, me, list(args or []), dict(kwargs or {}),
+                                                   st, fn.node))
+            finally:
+                self.stack.pop()
+        else:
+            results = self.call_function(fn, list(args or []), dict(kwargs or {}), st, self_obj)
+        for val, s in results:
             if s.raised:
                 exc = s.raised
                 s2 = s.copy()
@@ -474,14 +564,16 @@ class Interp:
         return self.stack[-1]
 
     # ------------------------------------------------------------------ function calls
-    def call_function(self, fn, args, kwargs, st, self_obj=None, closure_env=None):
+    def call_function(self, fn, args, kwargs, st, self_obj=None, closure_env=None,
+                      closure_defaults=None):
         params = fn.params
         env = dict(closure_env or {})
         pos = list(params)
         deco = {ast.unparse(d) for d in getattr(fn.node, 'decorator_list', [])}
         if fn.cls is not None and 'classmethod' in deco and pos:
-            env[pos[0]] = ClassRef(self.self_cls or fn.cls,
-                                   (self.self_cls or fn.cls).module.name + '.' + (self.self_cls or fn.cls).name)
+            dyn = self.self_cls if (self.self_cls is not None and
+                                    fn.cls in self.self_cls.mro()) else fn.cls
+            env[pos[0]] = ClassRef(dyn, dyn.module.name + '.' + dyn.name)
             pos = pos[1:]
         elif fn.cls is not None and 'staticmethod' in deco:
             pass
@@ -511,7 +603,9 @@ class Interp:
         defaults = fn.defaults()
         for p in pos + [a.arg for a in fn.node.args.kwonlyargs]:
             if p not in bound_:
-                if p in defaults:
+                if closure_defaults and p in closure_defaults:
+                    env[p] = closure_defaults[p]
+                elif p in defaults:
                     env[p] = self.const_expr(defaults[p])
                 else:
                     env[p] = Sym.var(p)
@@ -779,7 +873,8 @@ class Interp:
                 yield Outcome(out.kind, out.value, s2)
 
     def st_FunctionDef(self, node, st):
-        if node.decorator_list:
+        if any(ast.unparse(d.func if isinstance(d, ast.Call) else d).split('.')[-1] != 'wraps'
+               for d in node.decorator_list):
             yield Outcome('fall', None, st.bind(node.name, Opaque('localfunc:' + node.name)))
             return
         yield Outcome('fall', None, st.bind(node.name, self.make_closure(
@@ -885,6 +980,12 @@ class Interp:
     def literal_items(self, it):
         if isinstance(it, Tup):
             return list(it.items)
+        if isinstance(it, Inst) and it.cls.kind == 'namedtuple':
+            return [v for _, v in it.fields]
+        if isinstance(it, ClassRef) and it.cls.kind in ('enum', 'intenum'):
+            ms = self.enum_members(it.cls)
+            if ms is not None:
+                return [EnumV(it.cls, it.qual, n, v, it.cls.kind == 'intenum') for n, v in ms]
         if isinstance(it, DictV):
             return [k for k, _ in it.items]
         if isinstance(it, Opaque) and it.label == 'range' and all(
@@ -1002,6 +1103,9 @@ class Interp:
             for t, x in zip(tgt.elts, items):
                 states = [s2 for s1 in states for s2 in self.assign(t, x, s1)]
             yield from states
+        elif isinstance(tgt, ast.Attribute) and isinstance(tgt.value, ast.Name) and isinstance(
+                st.env.get(tgt.value.id), (Inst, EnumV)):
+            raise Unsupported('attribute store on a value object at %s' % self.cur.loc(tgt))
         elif isinstance(tgt, ast.Attribute):
             if isinstance(tgt.value, ast.Name) and tgt.value.id == 'self':
                 s = st.setfield(('self', tgt.attr), v)
@@ -1022,10 +1126,30 @@ class Interp:
                 for i, s2 in self.ev_index(tgt.slice, s):
                     s3 = s2.effect(Effect('store', ('item', o, i), (v,), tgt.lineno,
                                           self.cur.qualname))
+                    if isinstance(tgt.value, ast.Name) and isinstance(o, (Tup, DictV)) and \
+                            s3.env.get(tgt.value.id) == o:
+                        s3 = s3.bind(tgt.value.id, self._stored_into(o, i, v, tgt))
                     r = self.hooks.stored(self, o, i, v, s3)
                     yield r if r is not None else s3
         else:
             raise Unsupported('assignment target %s' % type(tgt).__name__)
+
+    def _stored_into(self, o, i, v, tgt):
+        """The container value after `o[i] = v` (contents forgotten when the slot is not known)."""
+        if isinstance(o, Tup) and o.kind == 'list' and isinstance(i, Sym) and i.is_const() and \
+                i.const_value().denominator == 1 and \
+                -len(o.items) <= int(i.const_value()) < len(o.items):
+            items = list(o.items)
+            items[int(i.const_value())] = v
+            return Tup(tuple(items), 'list')
+        if isinstance(o, DictV) and self._const_key(i) and all(
+                self._const_key(k) for k, _ in o.items):
+            d = [(k, (v if k == i else w)) for k, w in o.items]
+            if not any(k == i for k, _ in o.items):
+                d.append((i, v))
+            return DictV(tuple(d))
+        return Opaque('havoc:%s@%d' % (tgt.value.id, tgt.lineno), (),
+                      'dict' if isinstance(o, DictV) else 'list')
 
     # ------------------------------------------------------------------ conditions
     def ev_cond(self, node, st):
@@ -1266,6 +1390,9 @@ class Interp:
                     return FuncRef(mm.functions[a], mm.functions[a].qualname)
                 return Opaque('pkgattr:%s.%s' % (m, a))
             return ExtRef(tgt[4:])
+        import builtins as _b
+        if not hasattr(_b, name):
+            note_gap('name', name, self.cur.loc())
         return ExtRef('builtins.' + name)
 
     def ev_Attribute(self, node, st):
@@ -1276,6 +1403,12 @@ class Interp:
             yield from self.get_attr(o, node.attr, s, node)
 
     def get_attr(self, o, attr, s, node=None):
+        if isinstance(o, (Inst, EnumV)):
+            yield from self.value_attr(o, attr, s, node)
+            return
+        if isinstance(o, Sym) and attr == 'value':
+            yield o, s          # value of an IntEnum / IntFlag combination
+            return
         if isinstance(o, ObjRef):
             hv = self.hooks.field(o, attr, s)
             if hv is not None:
@@ -1335,6 +1468,14 @@ class Interp:
             m = o.cls.lookup(attr)
             if m is not None:
                 yield FuncRef(m, m.qualname), s
+                return
+            if o.cls.kind in ('enum', 'intenum') and not attr.startswith('_'):
+                mem = self.enum_member(o, attr)
+                if mem is not None:
+                    yield mem, s
+                    return
+            if attr == '_fields' and o.cls.kind == 'namedtuple':
+                yield Tup(tuple(Str.lit(n) for n, _ in o.cls.all_fields())), s
                 return
             expr, owner = o.cls.lookup_attr(attr)
             if expr is not None and (isinstance(expr, ast.Constant) or
@@ -1527,7 +1668,14 @@ class Interp:
             raise Unsupported('generator closure at %s' % self.cur.loc(node))
         fn = FuncInfo(self.cur.module, None, fdef)
         fn.qualname = '%s.<%s>' % (self.cur.qualname, label)
-        return Closure(fn, label, tuple((n, st.env[n]) for n in free), self.cur.qualname)
+        dvals = []
+        for pname, dexpr in fn.defaults().items():
+            got = list(self.ev(dexpr, st))
+            if len(got) != 1 or got[0][1].raised or got[0][1].effects != st.effects:
+                raise Unsupported('default of %s in %s is not a plain value' % (pname, label))
+            dvals.append((pname, got[0][0]))
+        return Closure(fn, label, tuple((n, st.env[n]) for n in free), self.cur.qualname,
+                       tuple(dvals))
 
     def ev_JoinedStr(self, node, st):
         exprs = [v.value for v in node.values if isinstance(v, ast.FormattedValue)]
@@ -1636,6 +1784,21 @@ class Interp:
             yield (conds[0] if len(conds) == 1 else AndC(tuple(conds))), s
 
     def compare(self, op, a, b):
+        if isinstance(a, EnumV) and isinstance(b, EnumV) and isinstance(
+                op, (ast.Is, ast.IsNot, ast.Eq, ast.NotEq)):
+            same = a.qual == b.qual and a.name == b.name
+            if a.qual != b.qual and a.intlike and b.intlike:
+                same = a.value == b.value
+            return Const(same if isinstance(op, (ast.Is, ast.Eq)) else not same)
+        if isinstance(a, EnumV) != isinstance(b, EnumV) and isinstance(op, (ast.Is, ast.IsNot)) \
+                and (a == NONE or b == NONE):
+            return Const(isinstance(op, ast.IsNot))
+        if not isinstance(op, (ast.Is, ast.IsNot, ast.In, ast.NotIn)):
+            a, b = num_of(a), num_of(b)
+            if isinstance(a, Inst) and a.cls.kind == 'namedtuple':
+                a = Tup(tuple(v for _, v in a.fields))
+            if isinstance(b, Inst) and b.cls.kind == 'namedtuple':
+                b = Tup(tuple(v for _, v in b.fields))
         if isinstance(op, ast.Is):
             if b == NONE:
                 return IsNone(a)
@@ -1672,7 +1835,7 @@ class Interp:
             if s.raised:
                 yield None, s
                 continue
-            a, b = ab
+            a, b = num_of(ab[0]), num_of(ab[1])
             if self.trace_arith:
                 s = s.note(('arith', type(node.op).__name__, node.lineno, self.cur.qualname))
             if (isinstance(a, COND_TYPES) or isinstance(b, COND_TYPES)) and isinstance(
@@ -1803,6 +1966,9 @@ class Interp:
                 yield self.item_of(o, i), s2
 
     def item_of(self, o, i):
+        if isinstance(o, Inst) and o.cls.kind == 'namedtuple':
+            o = Tup(tuple(v for _, v in o.fields))
+        i = num_of(i) if not isinstance(i, tuple) else i
         if isinstance(i, tuple) and i and i[0] == 'slice':
             lo, hi, step = i[1:]
             if isinstance(o, Str) and o.is_lit() and all(
@@ -1858,6 +2024,11 @@ class Interp:
                 and st.env[f.value.id].kind == 'list' and not node.keywords:
             yield from self._list_mutation(node, f.value.id, f.attr, st)
             return
+        if isinstance(f, ast.Attribute) and isinstance(f.value, ast.Name) \
+                and isinstance(st.env.get(f.value.id), (Tup, DictV)) \
+                and f.attr in self.OTHER_MUTATORS:
+            yield from self._container_mutation(node, f.value.id, f.attr, st)
+            return
         for f, s in self.ev(node.func, st):
             if s.raised:
                 yield None, s
@@ -1900,6 +2071,126 @@ class Interp:
                         continue
                     kwargs = self._kwargs_of(node, kvals)
                     yield from self.do_call(f, args, kwargs, s3, node)
+
+    OTHER_MUTATORS = ('update', 'setdefault', 'popitem', 'add', 'discard', 'remove', 'sort',
+                      'reverse', 'popleft', 'appendleft', 'extendleft', 'pop', 'clear',
+                      'append', 'extend', 'insert', 'intersection_update', 'difference_update',
+                      'symmetric_difference_update', 'rotate')
+
+    def _container_mutation(self, node, name, meth, st):
+        """In-place mutation of a dict / set / list held in a local variable: modelled exactly for
+        the common shapes, otherwise the variable's contents are forgotten (never kept stale)."""
+        starred = any(isinstance(a, ast.Starred) for a in node.args)
+        plain = [a.value if isinstance(a, ast.Starred) else a for a in node.args]
+        for args, s in self.ev_seq(plain, st):
+            if s.raised:
+                yield None, s
+                continue
+            for kvals, s in self.ev_seq([k.value for k in node.keywords], s):
+                if s.raised:
+                    yield None, s
+                    continue
+                try:
+                    kwargs = self._kwargs_of(node, kvals)
+                except Unsupported:
+                    kwargs = None
+                cur = s.env[name]
+                res, new = NONE, None
+                if not starred and kwargs is not None:
+                    res, new = self._mutated(cur, meth, args, kwargs)
+                    if res == 'raise':
+                        yield None, s.raising(new)
+                        continue
+                if new is None:
+                    ty = 'dict' if isinstance(cur, DictV) else 'list'
+                    yield Opaque('m:' + meth, (cur,) + tuple(args)), s.bind(
+                        name, Opaque('havoc:%s@%d' % (name, node.lineno), (), ty))
+                    continue
+                yield res, s.bind(name, new)
+
+    @staticmethod
+    def _const_key(k):
+        return (isinstance(k, Str) and k.is_lit()) or (isinstance(k, Sym) and k.is_const()) or \
+            isinstance(k, Const)
+
+    def _mutated(self, cur, meth, args, kwargs):
+        """(result, new container) of cur.meth(*args, **kwargs), or (NONE, None) if not modelled."""
+        ck = self._const_key
+        res, new = NONE, None
+        if isinstance(cur, DictV):
+            d = list(cur.items)
+
+            def put(k, v):
+                for i_, (kk, _) in enumerate(d):
+                    if kk == k:
+                        d[i_] = (k, v)
+                        return
+                d.append((k, v))
+            keys_const = all(ck(k) for k, _ in d)
+            if meth == 'update' and len(args) <= 1 and keys_const and (
+                    not args or (isinstance(args[0], DictV) and all(
+                        ck(k) for k, _ in args[0].items))):
+                for k, v in (args[0].items if args else ()):
+                    put(k, v)
+                for k, v in kwargs.items():
+                    put(Str.lit(k), v)
+                new = DictV(tuple(d))
+            elif meth == 'setdefault' and len(args) in (1, 2) and keys_const and ck(args[0]) \
+                    and not kwargs:
+                hit = [v for k, v in d if k == args[0]]
+                if hit:
+                    res, new = hit[0], cur
+                else:
+                    res = args[1] if len(args) == 2 else NONE
+                    put(args[0], res)
+                    new = DictV(tuple(d))
+            elif meth == 'pop' and len(args) in (1, 2) and keys_const and ck(args[0]) \
+                    and not kwargs:
+                hit = [v for k, v in d if k == args[0]]
+                if hit:
+                    res, new = hit[0], DictV(tuple((k, v) for k, v in d if k != args[0]))
+                elif len(args) == 2:
+                    res, new = args[1], cur
+                else:
+                    return 'raise', 'KeyError'
+            elif meth == 'clear' and not args and not kwargs:
+                new = DictV(())
+        elif isinstance(cur, Tup) and cur.kind == 'set' and not kwargs:
+            items = list(cur.items)
+            allc = all(ck(x) for x in items)
+            if meth == 'add' and len(args) == 1 and ck(args[0]) and allc:
+                new = cur if args[0] in items else Tup(tuple(items + [args[0]]), 'set')
+            elif meth == 'discard' and len(args) == 1 and ck(args[0]) and allc:
+                new = Tup(tuple(x for x in items if x != args[0]), 'set')
+            elif meth == 'clear' and not args:
+                new = Tup((), 'set')
+            elif meth == 'update' and allc and all(
+                    isinstance(a, Tup) and all(ck(x) for x in a.items) for a in args):
+                for a in args:
+                    for x in a.items:
+                        if x not in items:
+                            items.append(x)
+                new = Tup(tuple(items), 'set')
+        elif isinstance(cur, Tup) and not kwargs:
+            items = list(cur.items)
+            if meth == 'reverse' and not args:
+                new = Tup(tuple(reversed(items)), cur.kind)
+            elif meth == 'popleft' and not args and items:
+                res, new = items[0], Tup(tuple(items[1:]), cur.kind)
+            elif meth == 'appendleft' and len(args) == 1:
+                new = Tup(tuple([args[0]] + items), cur.kind)
+            elif meth == 'append' and len(args) == 1:
+                new = Tup(tuple(items + [args[0]]), cur.kind)
+            elif meth == 'extend' and len(args) == 1 and self.literal_items(args[0]) is not None:
+                new = Tup(tuple(items + list(self.literal_items(args[0]))), cur.kind)
+            elif meth == 'pop' and not args and items:
+                res, new = items[-1], Tup(tuple(items[:-1]), cur.kind)
+            elif meth == 'clear' and not args:
+                new = Tup((), cur.kind)
+            elif meth == 'sort' and not args and all(
+                    isinstance(x, Sym) and x.is_const() for x in items):
+                new = Tup(tuple(sorted(items, key=lambda x: x.const_value())), cur.kind)
+        return res, new
 
     def _list_mutation(self, node, name, meth, st):
         """In-place mutation of a list held in a local variable whose elements are known."""
@@ -1945,6 +2236,7 @@ class Interp:
             return
         if isinstance(f, Closure):
             if f.fn in self.stack or len(self.stack) > 24:
+                note_gap('callee', f.label, self.cur.loc(node))
                 yield Opaque('call:' + f.label, tuple(args)), st.effect(
                     Effect('call', f, tuple(args), node.lineno, self.cur.qualname))
                 return
@@ -1954,8 +2246,19 @@ class Interp:
                         raise Unsupported('closure %s reads %r, which was rebound after the '
                                           'closure was created (%s)' % (f.label, n_,
                                                                        self.cur.loc(node)))
-            yield from self.call_function(f.fn, args, kwargs, st, closure_env=dict(f.captured))
+            yield from self.call_function(f.fn, args, kwargs, st, closure_env=dict(f.captured),
+                                          closure_defaults=dict(f.defaults))
             return
+        if isinstance(f, FuncRef) and not f.qual.endswith('#raw') and \
+                self.unknown_decorators(f.fn):
+            yield from self.call_decorated(f.fn, None, args, kwargs, st, node)
+            return
+        if isinstance(f, Bound) and isinstance(f.obj, ObjRef):
+            m_ = (self.self_cls or f.obj.cls).lookup(f.name) if (self.self_cls or f.obj.cls) \
+                else None
+            if m_ is not None and self.unknown_decorators(m_) and m_ not in self.stack:
+                yield from self.call_decorated(m_, f.obj, args, kwargs, st, node)
+                return
         if isinstance(f, FuncRef):
             fn = f.fn
             if fn in self.stack or not self.hooks.inline(fn, len(self.stack)):
@@ -1964,7 +2267,7 @@ class Interp:
                     Effect('call', f, bound, node.lineno, self.cur.qualname))
                 return
             if fn.cls is not None and fn.params and fn.params[0] == 'self' and args and \
-                    isinstance(args[0], ObjRef):
+                    isinstance(args[0], (ObjRef, Inst, EnumV)):
                 yield from self.call_function(fn, args[1:], kwargs, st, args[0])
             else:
                 yield from self.call_function(fn, args, kwargs, st)
@@ -1991,16 +2294,201 @@ class Interp:
                 yield from r
                 return
         if isinstance(f, ClassRef):
+            made = self.instantiate(f, args, kwargs, st, node)
+            if made is not None:
+                yield from made
+                return
+            note_gap('instance', f.qual, self.cur.loc(node))
             yield Opaque('new:' + f.qual, tuple(args), 'obj'), st
             return
+        if isinstance(f, Bound) and isinstance(f.obj, (Inst, EnumV)):
+            r = self.call_value_method(f.obj, f.name, args, kwargs, st, node)
+            if r is not None:
+                yield from r
+                return
         if isinstance(f, Bound) and isinstance(f.obj, ClassRef):
             m = f.obj.cls.lookup(f.name)
             if m is not None and m not in self.stack and self.hooks.inline(m, len(self.stack)):
                 yield from self.call_function(m, args, kwargs, st)
                 return
         # unknown callee: opaque result, recorded as an effect
+        if _gap_callee(f):
+            note_gap('callee', describe(f), self.cur.loc(node))
         yield Opaque('call:' + describe(f), tuple(args)), st.effect(
             Effect('call', f, tuple(args), node.lineno, self.cur.qualname))
+
+    # ------------------------------------------------------------------ decorators
+    PLAIN_DECORATORS = {'property', 'staticmethod', 'classmethod', 'wraps', 'abstractmethod',
+                        'lru_cache', 'cache', 'cached_property', 'override', 'final',
+                        'setter', 'getter', 'deleter'}
+
+    def unknown_decorators(self, fn):
+        return [d for d in getattr(fn.node, 'decorator_list', [])
+                if ast.unparse(d.func if isinstance(d, ast.Call) else d).split('.')[-1]
+                not in self.PLAIN_DECORATORS]
+
+    def call_decorated(self, fn, self_obj, args, kwargs, st, node):
+        """Call a function through its (repo-defined) decorators: each decorator expression is
+        evaluated in the defining module and applied to the function, innermost first."""
+        val = FuncRef(fn, fn.qualname + '#raw')
+        frame = ModuleFrame(fn.module, fn.cls)
+        for d in reversed(fn.node.decorator_list):
+            if ast.unparse(d.func if isinstance(d, ast.Call) else d).split('.')[-1] in \
+                    self.PLAIN_DECORATORS:
+                continue
+            self.stack.append(frame)
+            try:
+                got = [(v, s_) for v, s_ in self.ev(d, State())]
+            finally:
+                self.stack.pop()
+            if len(got) != 1 or got[0][1].raised or got[0][1].effects:
+                raise Unsupported('decorator %s of %s is not a plain value'
+                                  % (ast.unparse(d), fn.qualname))
+            applied = list(self.do_call(got[0][0], [val], {}, State(), node))
+            if len(applied) != 1 or applied[0][1].raised or applied[0][1].effects or \
+                    applied[0][1].path:
+                raise Unsupported('decorator %s of %s does not return one callable'
+                                  % (ast.unparse(d), fn.qualname))
+            val = applied[0][0]
+            if not isinstance(val, (Closure, FuncRef)):
+                note_gap('decorator', ast.unparse(d), fn.loc())
+        full = ([self_obj] if self_obj is not None else []) + list(args)
+        yield from self.do_call(val, full, kwargs, st, node)
+
+    # ------------------------------------------------------------------ value classes
+    def enum_members(self, cls):
+        """[(name, value)] of an Enum class in definition order (auto() counts from 1)."""
+        out, auto = [], 0
+        for c in reversed(cls.mro()):
+            for name in c.member_order:
+                if name.startswith('_'):
+                    continue
+                expr = c.class_attrs[name]
+                if isinstance(expr, ast.Call) and ast.unparse(expr.func).split('.')[-1] == 'auto':
+                    auto += 1
+                    val = Sym.const(auto)
+                else:
+                    val = self.eval_constant_expr(expr, c.module, c)
+                    if val is None:
+                        return None
+                    if isinstance(val, Sym) and val.is_const() and \
+                            val.const_value().denominator == 1:
+                        auto = int(val.const_value())
+                out.append((name, val))
+        return out
+
+    def enum_member(self, cref, name):
+        ms = self.enum_members(cref.cls)
+        if ms is None:
+            return None
+        for n, v in ms:
+            if n == name:
+                return EnumV(cref.cls, cref.qual, n, v, cref.cls.kind == 'intenum')
+        return None
+
+    def instantiate(self, f, args, kwargs, st, node):
+        cls = f.cls
+        kind = cls.kind
+        if kind in ('enum', 'intenum'):
+            ms = self.enum_members(cls)
+            if ms is None or len(args) != 1 or kwargs:
+                return None
+            want = num_of(args[0])
+            hits = [EnumV(cls, f.qual, n, v, kind == 'intenum') for n, v in ms if v == want]
+            if hits:
+                return [(hits[0], st)]
+            if is_constant_value(want):
+                return [(None, st.raising('ValueError'))]
+            return None
+        if kind not in ('namedtuple', 'dataclass'):
+            return None
+        if cls.lookup('__init__') or cls.lookup('__new__') or cls.lookup('__post_init__'):
+            return None
+        fields = cls.all_fields()
+        names = [n for n, _ in fields]
+        if len(args) > len(names) or any(k not in names for k in kwargs):
+            return [(None, st.raising('TypeError'))]
+        vals = dict(zip(names, args))
+        for k, v in kwargs.items():
+            if k in vals:
+                return [(None, st.raising('TypeError'))]
+            vals[k] = v
+        for n, d in fields:
+            if n not in vals:
+                if d is None:
+                    return [(None, st.raising('TypeError'))]
+                if isinstance(d, ast.Call) and ast.unparse(d.func).split('.')[-1] == 'field':
+                    return None
+                owner = next(c for c in cls.mro() if any(m == n for m, _ in c.ann_fields))
+                dv = self.eval_constant_expr(d, owner.module, owner)
+                if dv is None:
+                    return None
+                vals[n] = dv
+        return [(Inst(cls, f.qual, tuple((n, vals[n]) for n in names)), st)]
+
+    def call_value_method(self, obj, name, args, kwargs, st, node):
+        cls = obj.cls
+        m = cls.lookup(name)
+        if m is not None:
+            deco = {ast.unparse(d).split('.')[-1] for d in m.node.decorator_list}
+            if m in self.stack or len(self.stack) > 24:
+                return None
+            if 'staticmethod' in deco or 'classmethod' in deco:
+                return self.call_function(m, args, kwargs, st)
+            return self.call_function(m, args, kwargs, st, obj)
+        if isinstance(obj, Inst) and cls.kind == 'namedtuple':
+            if name == '_replace' and not args and all(obj.has(k) for k in kwargs):
+                return [(Inst(cls, obj.qual, tuple((n, kwargs.get(n, v)) for n, v in obj.fields)),
+                         st)]
+            if name == '_asdict' and not args and not kwargs:
+                return [(DictV(tuple((Str.lit(n), v) for n, v in obj.fields)), st)]
+            if name in ('index', 'count') and len(args) == 1:
+                return self.call_method(Tup(tuple(v for _, v in obj.fields)), name, args, kwargs,
+                                        st, node)
+        return None
+
+    def value_attr(self, o, attr, s, node):
+        """Attribute of an Inst / EnumV: field, property (inlined), bound method, class constant."""
+        if isinstance(o, EnumV):
+            if attr == 'value':
+                yield o.value, s
+                return
+            if attr == 'name':
+                yield Str.lit(o.name), s
+                return
+        if isinstance(o, Inst):
+            if o.has(attr):
+                yield o.get(attr), s
+                return
+            if attr == '_fields' and o.cls.kind == 'namedtuple':
+                yield Tup(tuple(Str.lit(n) for n, _ in o.fields)), s
+                return
+        m = o.cls.lookup(attr)
+        if m is not None:
+            deco = {ast.unparse(d).split('.')[-1] for d in m.node.decorator_list}
+            if deco & {'property', 'cached_property'}:
+                if m in self.stack or len(self.stack) > 24:
+                    note_gap('callee', m.qualname, self.cur.loc(node))
+                    yield Opaque('call:' + m.qualname, (o,)), s
+                    return
+                yield from self.call_function(m, [], {}, s, o)
+                return
+            yield Bound(o, attr), s
+            return
+        expr, owner = o.cls.lookup_attr(attr)
+        if expr is not None:
+            if o.cls.kind in ('enum', 'intenum') and attr in owner.member_order and \
+                    not attr.startswith('_'):
+                mem = self.enum_member(ClassRef(o.cls, o.qual), attr)
+                if mem is not None:
+                    yield mem, s
+                    return
+            cv = self.eval_constant_expr(expr, owner.module, owner)
+            if cv is not None:
+                yield cv, s
+                return
+        note_gap('attribute', '%s.%s' % (o.qual, attr), self.cur.loc(node))
+        yield Opaque('attr:%s.%s' % (o.qual, attr)), s
 
     def call_ext(self, dotted, args, kwargs, st, node):
         name = dotted
@@ -2060,6 +2548,10 @@ class Interp:
             if isinstance(a, Str) or type_of(a) == 'str':
                 return [(a, st)]
             return [(Str.make(fmt_parts(a, '')), st)]
+        if name in ('functools.wraps', 'functools.lru_cache', 'functools.cache'):
+            return [(ExtRef('builtins.<identity>'), st)]
+        if name == '<identity>' and len(args) == 1:
+            return [(args[0], st)]
         if name == 'format' and len(args) in (1, 2) and (len(args) == 1 or (
                 isinstance(args[1], Str) and args[1].is_lit())):
             return [(Str.make(fmt_parts(args[0], args[1].text() if len(args) == 2 else '')), st)]
@@ -2361,6 +2853,12 @@ def describe(f):
         return f.label
     if isinstance(f, Sym):
         return repr(f)
+    if isinstance(f, Inst):
+        return 'inst:' + f.qual
+    if isinstance(f, EnumV):
+        return '%s.%s' % (f.qual, f.name)
+    if isinstance(f, Closure):
+        return f.label
     return type(f).__name__
 
 
@@ -2453,6 +2951,7 @@ def type_of_hint(v):
 
 
 def to_cond(v):
+    v = num_of(v)
     if isinstance(v, COND_TYPES) or isinstance(v, Const):
         return v if not (isinstance(v, Const) and v.v is None) else FALSE
     if isinstance(v, Sym):
@@ -2524,8 +3023,14 @@ def fold_cond(c):
                 return True
         if isinstance(v, Tup):
             return bool(v.items)
-        if isinstance(v, ObjRef):
+        if isinstance(v, (ObjRef, FuncRef, Closure, ExtRef, ClassRef)):
             return True
+        if isinstance(v, EnumV) and not v.intlike:
+            return True
+        if isinstance(v, Inst) and not v.cls.lookup('__bool__') and not v.cls.lookup('__len__'):
+            return bool(v.fields) if v.cls.kind == 'namedtuple' else True
+        if isinstance(v, DictV):
+            return bool(v.items)
         return None
     if isinstance(c, NotC):
         t = fold_cond(c.c)
